@@ -201,6 +201,14 @@ fn de_nested() {
 
 harnesses! {
     #[unwind(14)] fn c14_de_nested() { de_nested() }
+    // an unconverted channel whose descriptor NUMBER is 0 (a process without stdin) is released too
+    #[unwind(19)] fn c16_drop_undecoded_fd0() {
+        setup(64);
+        env::next_fd_is(0);
+        let (m, att) = garbage_message(1, 0);
+        drop(m);
+        finish(&att);
+    }
     #[unwind(19)] fn c16_u8_00() { plain::<u8>(0, 0) }
     #[unwind(19)] fn c16_u32pair_00() { plain::<(u32, u32)>(0, 0) }
     #[unwind(19)] fn c16_opt_u8_00() { plain::<Option<u8>>(0, 0) }
